@@ -61,7 +61,7 @@ pub fn check_c01(c: &TV, acc: &mut Acc, record: bool) -> Verdict {
 
 pub fn run_c01(cx: &Cx) -> PropResult {
     let depth = if cx.tier == crate::run::Tier::Quick { 3 } else { 4 };
-    let per_shard = cx.n(2_500, 120_000);
+    let per_shard = cx.n(40_000, 1_000_000);
     let acc = parallel(cx, &|shard, acc| {
         let strat = tv_strategy(depth, ValCfg::default());
         drive(crate::run::tag_seed(derive_seed(cx.seed, cx.prop, shard as u64, 0), 0), &strat, per_shard, acc, &|c: &TV| to_json(c), &mut |c, a, r| check_c01(c, a, r));
@@ -156,7 +156,7 @@ pub fn check_c04(c: &TV, acc: &mut Acc, record: bool) -> Verdict {
 
 pub fn run_c04(cx: &Cx) -> PropResult {
     let depth = if cx.tier == crate::run::Tier::Quick { 3 } else { 4 };
-    let per_shard = cx.n(2_500, 120_000);
+    let per_shard = cx.n(25_000, 800_000);
     let acc = parallel(cx, &|shard, acc| {
         let strat = tv_strategy(depth, ValCfg::default());
         if drive(crate::run::tag_seed(derive_seed(cx.seed, cx.prop, shard as u64, 0), 0), &strat, per_shard, acc, &|c: &TV| to_json(c), &mut |c, a, r| check_c04(c, a, r)) {
